@@ -153,7 +153,10 @@ pub fn minimise(case: &Case, hist: &History, viol: &Violation) -> (Case, History
         }
         let mut cand = best.clone();
         match step {
-            0 if cand.sched.stall.is_some() => cand.sched.stall = None,
+            0 if cand.sched.stall.is_some() || cand.sched.report_stall.is_some() => {
+                cand.sched.stall = None;
+                cand.sched.report_stall = None;
+            }
             1 if !cand.sched.wall_steps.is_empty() => cand.sched.wall_steps.clear(),
             2 if cand.sched.ring_cap != 0 => cand.sched.ring_cap = 0,
             3 if cand.str_seed != 0 => cand.str_seed = 0,
